@@ -163,6 +163,20 @@ func apply(ops []opT) func(s *sys, op int) string {
 		o := ops[i]
 		var err error
 		arg := o.arg
+		// the lookup made last before an update is one for an address of the range being updated
+		// (whatever a filter remembers about its latest lookups must not outlive the update)
+		if !o.invalid && !o.maybe && len(o.arg.Mask) == 4 && len(o.arg.IP) == 4 {
+			first := o.arg.IP.Mask(o.arg.Mask)
+			last := make(net.IP, 4)
+			for k := range last {
+				last[k] = first[k] | ^o.arg.Mask[k]
+			}
+			for _, p := range []net.IP{last, first} {
+				if got, want := s.f.Contains(p), s.refContains(p); got != want {
+					return fmt.Sprintf("C11: before %s: Contains(%s)=%v but the set {%s} says %v", o.name, p, got, refShow(s), want)
+				}
+			}
+		}
 		if o.shared {
 			copy(s.buf, o.arg.IP.To4())
 			arg = &net.IPNet{IP: s.buf, Mask: o.arg.Mask}
